@@ -368,7 +368,7 @@ func runC13(c *ev.ChildEnv, res *ev.Result) {
 func init() {
 	register(&Check{
 		ID: "C13", Level: "exploration", MinNontriv: 50,
-		Rule: "seeded random OCI specs (process+linux sections, nested/trailing-slash/relative mount destinations) x adjustments of 1-8 operations mixing set (0), lone removal (1), marker-then-set (2) and set-then-marker (3) over all adjustable fields; each applied 16 (quick) / 32 (thorough) times to fresh copies with reshuffled maps; compared with a reference interpreter, checked for identical results, parent-before-child mount order and untouched remainder; decoy removals (--key), hooks of all six kinds on specs that already carry hooks, doubly non-canonical parent destinations, boundary numbers (0, +-1, min, max); the same adjustment object applied twice (left unchanged, same result); the CDI injector called once per adjustment with all names; distinct = distinct multisets of (field kind:mode)",
+		Rule: "seeded random OCI specs (process+linux sections, nested/trailing-slash/relative mount destinations) x adjustments of 1-8 operations mixing set (0), lone removal (1), marker-then-set (2) and set-then-marker (3) over all adjustable fields; each applied 16 (quick) / 32 (thorough) times to fresh copies with reshuffled maps; compared with a reference interpreter, checked for identical results, parent-before-child mount order and untouched remainder; decoy removals (--key), hooks of all six kinds on specs that already carry hooks, doubly non-canonical parent destinations, boundary numbers (0, +-1, min, max); the same adjustment object applied twice (left unchanged, same result); the CDI injector called once per adjustment with all names; the harness CDI injector adds a mount of its own (parent of two mount keys); distinct = distinct multisets of (field kind:mode)",
 		Assumptions: []string{
 			"memory limit also sets swap (the repository's own TestGenerate asserts that coupling)",
 			"mount options avoid rshared/rslave (the generator then inspects the host mount table)",
